@@ -98,6 +98,9 @@ class G:
 # ---------------------------------------------------------------------------
 # expressions
 # ---------------------------------------------------------------------------
+# C11 6.7.10: the message is any string literal (or a run of adjacent ones)
+SASSERT_MSGS = [['"m"'], None, ['"a"', '"b"'], ['L"w"'], ['u8"a"', 'u8"b"'], ['U"x"', 'U""'], ['u"y"']]
+
 def gen_leaf(g):
     c = g.c
     k = c.weighted([(4, "id"), (2, "int"), (1, "float"), (1, "char"), (1, "str")])
@@ -251,7 +254,7 @@ def gen_struct(g, depth=1):
         if r == 0:
             members.append(("pragma", c.choice(["pack(1)", "once", ""])))
         elif r == 1 and g.on("decl.static_assert_in_struct"):
-            members.append(("sassert", const_expr(g, 1), ['"m"']))
+            members.append(("sassert", const_expr(g, 1), c.choice(SASSERT_MSGS[:1] + SASSERT_MSGS[2:])))
         elif r == 2 and depth > 0:
             # anonymous struct/union member (C11)
             inner = gen_struct(g, depth - 1)
@@ -682,7 +685,7 @@ def gen_block(g, d):
         elif r == 4:
             items.append(("pragma", c.choice(["omp x", "pack(1)", "", "once"])))
         elif r == 5 and g.on("stmt.static_assert_in_block"):
-            items.append(("sassert", const_expr(g, 1), c.choice([['"m"'], ['"a"', '"b"'], None])))
+            items.append(("sassert", const_expr(g, 1), c.choice(SASSERT_MSGS)))
         elif r == 6 and g.on("stmt._Pragma_operator"):
             items.append(("oppragma", ['"omp for"']))
         else:
@@ -750,7 +753,7 @@ def gen_external(g):
     if k == "pragma":
         return ("pragma", c.choice(["once", "pack(push, 1)", "", "omp threadprivate(x)"]))
     if k == "sassert":
-        return ("sassert", const_expr(g, 1), c.choice([['"m"'], None, ['"x"', '"y"']]))
+        return ("sassert", const_expr(g, 1), c.choice(SASSERT_MSGS))
     if k == "oppragma":
         if g.on("stmt._Pragma_operator"):
             return ("oppragma", ['"pack(1)"'])
